@@ -30,6 +30,8 @@ const (
 	sStrangerEmb  = "stranger-embedded"   // self-signed stranger, certificate embedded
 	sStrangerBare = "stranger-bare"       // self-signed stranger, nothing embedded
 	sSibling      = "sibling"             // CA with the issuer's name but another key
+	sLookalike    = "lookalike-embedded"  // self-signed certificate copying the issuer's name AND subjectKeyIdentifier, own key, embedded
+	sLookalikeBare = "lookalike-bare"     // the same, not embedded
 )
 
 type Responder struct {
@@ -46,6 +48,7 @@ type Responder struct {
 	Hits       int
 	delegated  *CA
 	delegNoEKU *CA
+	lookalike  *CA
 	ClientCert *x509.Certificate
 	ClientKey  crypto.Signer
 	Last       *OCSPAnswer
@@ -132,6 +135,16 @@ func (r *Responder) Build(serial *big.Int, now time.Time) ([]byte, *OCSPAnswer) 
 	case sSibling:
 		respCert, key = r.w.Sib.Cert, r.w.Sib.Key
 		issuerCert = r.w.Sib.Cert
+		authentic = false
+	case sLookalike, sLookalikeBare:
+		if r.lookalike == nil {
+			r.lookalike = NewCA(nil, CAOpts{CN: "x", SubjectOf: r.Issuer, SKI: r.Issuer.Cert.SubjectKeyId})
+		}
+		respCert, key = r.lookalike.Cert, r.lookalike.Key
+		issuerCert = r.lookalike.Cert
+		if r.Signer == sLookalike {
+			tmpl.Certificate = r.lookalike.Cert
+		}
 		authentic = false
 	}
 	der, err := ocsp.CreateResponse(issuerCert, respCert, tmpl, key)
